@@ -15,7 +15,10 @@ META = dict(
               "ALL state operations: states with the same independent values answer every later history identically) and on the "
               "sampler steps written as scripts over that model; the model's step function is run inside Coq (vm_compute) on the "
               "sampler-shaped histories executed by the real State, for every rejection mask; reference-state oracle on the real "
-              "State and on real Gibbs sampler steps of fitted shipped models, with directed non-finite proposals",
+              "State and on real Gibbs sampler steps of fitted shipped models, with directed non-finite proposals; directed real-sampler steps around "
+              "the NaN acceptance ratio (one individual with a non-evaluable proposal, every other one a null move: one-individual states and forced "
+              "normal draws, also population blocks) incl. the undo log being consumed by the decision; sampler-shaped toy histories on graphs with "
+              "WeightedTensor nodes whose weight is computed from the sampled variable (State/StateWExec.v: value AND weight selected row by row)",
     level_text="For every value type, well-formed graph, forked proposal, set of reads and later history: after revert() every value "
                "cached before the proposal is exactly back and every later operation answers as if the proposal had never been made; "
                "after revert(mask) under the documented preconditions (per-individual variable, reads of per-individual nodes only, "
